@@ -19,6 +19,8 @@ int main(int argc, char **argv) {
   int prop = parse_prop(a.prop);
   static FlatSetInterp<TheS, TheS2> I(VF_NAME, VF_LIMIT, VF_IS_STD, VF_IS_FCV);
   I.relocate_enabled = (prop == 14);
+  for (int q = 1; q + 1 < argc; ++q)
+    if (!strcmp(argv[q], "--portability")) I.portability = atoi(argv[q + 1]);
   uint32_t w[kFlatSetNumOps];
   fs_weights(prop, w);
   return interp_main(argc, argv, I, w, kFlatSetNumOps, &set_feat_name);
